@@ -960,7 +960,15 @@ def rule_meta_sem(ctx: RuleContext, p: Program, rid: str) -> None:
             if isinstance(b, ast.Subscript) and norm(b.value).rsplit('.', 1)[-1] in ('RWValue', 'SingleValueRawTokenModel', 'SimpleSingleValueRawTokenModel'):
                 value_type.setdefault(k, norm(b.slice).rsplit('.', 1)[-1])
     ts = TS(p)
-    plain_values = {'str': 'text', 'date': datetime.date(2020, 1, 2), 'Decimal': decimal.Decimal(5), 'bool': True}
+    class _Text(str):
+        pass
+
+    class _Amount(decimal.Decimal):
+        pass
+    # instances of subclasses are values of the plain types too (a str-mixin enum member, a tagged str, a datetime, a Decimal subclass)
+    plain_values = {'str': 'text', 'date': datetime.date(2020, 1, 2), 'Decimal': decimal.Decimal(5), 'bool': True,
+                    'str (an instance of a subclass)': _Text('tagged'), 'date (a datetime.datetime)': datetime.datetime(2020, 1, 2, 3, 4),
+                    'Decimal (an instance of a subclass)': _Amount(7)}
 
     class Interp(possem.PosInterp):
         tag = 'META-SEM'
@@ -1045,8 +1053,24 @@ def rule_meta_sem(ctx: RuleContext, p: Program, rid: str) -> None:
                     return fn_
                 if e.id in raw_kinds:
                     return possem.ClassRef(e.id)
-            if isinstance(e, ast.Attribute) and norm(e) in ('datetime.date', 'decimal.Decimal'):
+                tbl = next((st.value for st in m.tree.body if isinstance(st, (ast.Assign, ast.AnnAssign)) and st.value is not None
+                            and norm(st.targets[0] if isinstance(st, ast.Assign) else st.target) == e.id and isinstance(st.value, ast.Dict)), None)
+                if tbl is not None:
+                    # a module-level table keyed by classes: keys are compared as python compares classes (by identity, so type(v) of an
+                    # instance of a subclass finds nothing)
+                    out_: dict = {}
+                    for k_, v_ in zip(tbl.keys, tbl.values):
+                        kk = self.expr(k_, env)
+                        if isinstance(kk, possem.Builtin):
+                            kk = ('type', kk.name)
+                        elif isinstance(kk, possem.ClassRef):
+                            kk = ('type', kk.name)
+                        out_[kk] = self.expr(v_, env)
+                    return out_
+            if isinstance(e, ast.Attribute) and norm(e) in ('datetime.date', 'decimal.Decimal', 'datetime.datetime'):
                 return ('type', e.attr)
+            if isinstance(e, ast.Attribute) and e.attr == 'from_value' and isinstance(e.value, ast.Name) and e.value.id in raw_kinds and e.value.id not in env:
+                return possem._PyFn(lambda v_, k_=e.value.id: possem.Obj(k_, {'value': v_, 'fresh': True}, f'fresh {k_}'))
             return super().expr(e, env)
 
         def compare(self, op: Any, a: Any, b: Any, node: Any) -> bool:          # type: ignore[override]
@@ -1081,6 +1105,10 @@ def rule_meta_sem(ctx: RuleContext, p: Program, rid: str) -> None:
                 problems.append(f'{where_}: raises {ex}')
                 continue
             same = got is v if isinstance(v, possem.Obj) or v is None else (type(got) is type(v) and got == v)
+            if inner.f['slot'] is not None and not isinstance(inner.f['slot'], possem.Obj):
+                problems.append(f'{where_}: the plain value {v!r} is stored as if it were a raw model (from_value did not wrap it: the dispatch does not '
+                                f'recognise an instance of a subclass), so the assignment fails when the slot is filled')
+                continue
             if not same:
                 shown = f'{got.cls} token holding {got.f.get("value")!r}' if isinstance(got, possem.Obj) else repr(got)
                 problems.append(f'{where_}: reads back {shown}' + (' -- the plain value was written into a token of a kind that reads back as the token '
